@@ -31,7 +31,7 @@ type PubSubGeneric struct {
 	Unsubscribe *SubInfo `xml:"unsubscribe,omitempty"`
 
 	// Result sets
-	ResultSet *ResultSet `xml:"set,omitempty"`
+	ResultSet *ResultSet `xml:"http://jabber.org/protocol/rsm set,omitempty"`
 }
 
 func (p *PubSubGeneric) Namespace() string {
@@ -58,16 +58,16 @@ type Create struct {
 
 type SubOptions struct {
 	SubInfo
-	Form *Form `xml:"x"`
+	Form *Form `xml:"jabber:x:data x"`
 }
 
 type Configure struct {
-	Form *Form `xml:"x"`
+	Form *Form `xml:"jabber:x:data x"`
 }
 type Default struct {
 	Node string `xml:"node,attr,omitempty"`
 	Type string `xml:"type,attr,omitempty"`
-	Form *Form  `xml:"x"`
+	Form *Form  `xml:"jabber:x:data x"`
 }
 
 type Subscribe struct {
@@ -156,7 +156,7 @@ type Retract struct {
 
 type PubSubOption struct {
 	XMLName xml.Name `xml:"jabber:x:data options"`
-	Form    `xml:"x"`
+	Form    `xml:"jabber:x:data x"`
 }
 
 // NewSubRq builds a subscription request to a node at the given service.
